@@ -145,6 +145,25 @@ func check(c Case, r *kit.R) {
 	if err != nil {
 		r.Failf("C04:parse-error", "ParseCertificate rejects the created certificate: %v\n%s\nder=%x", err, spec.Describe(), der)
 	}
+	// the same template (and parent) object used once more: issuance must not have consumed or
+	// altered it, so the second certificate has the same to-be-signed bytes (nothing in a TBS is
+	// random) and round-trips exactly as the first one does
+	{
+		var der2 []byte
+		var err2 error
+		g2 := kit.GuardInline(func() { der2, err2 = x509.CreateCertificate(rand.Reader, tmpl, parent, subj.ZPub, signer.ZPriv) })
+		r.Must(g2, "CreateCertificate (second use of the template)")
+		if err2 != nil {
+			r.Failf("C04:template-reuse", "the second CreateCertificate with the same template fails: %v\n%s", err2, spec.Describe())
+		}
+		cert2, perr := x509.ParseCertificate(der2)
+		if perr != nil {
+			r.Failf("C04:template-reuse", "the certificate of the second CreateCertificate with the same template does not parse: %v\nder=%x", perr, der2)
+		}
+		if !bytes.Equal(cert2.RawTBSCertificate, cert.RawTBSCertificate) {
+			r.Failf("C04:template-reuse", "two CreateCertificate calls with the same template give different to-be-signed bytes (the first call altered its template or parent)\n%s\nfirst=%x\nsecond=%x", spec.Describe(), cert.RawTBSCertificate, cert2.RawTBSCertificate)
+		}
+	}
 
 	// --- effective expectations (ExtraExtensions override generated extensions)
 	ku := spec.KeyUsage
